@@ -30,6 +30,7 @@ vars == <<st, last, meas, n>>
 
 MCTsDefault == {1, 2, -3}        \* (cfg files cannot write negative numbers)
 MCTsQuick == {1, -3}
+MCTsQuick1 == {-3}
 MCOps == GateOps(MCGates, MCTs, {"p"})
 NoOp == [g |-> "none"]
 
